@@ -18,7 +18,9 @@ Tie-break rules encoded (property statement + DESIGN 4/C01):
   * functions decorated with typing.overload bind nothing by themselves (they are attached to the implementation that
     follows; the generator only emits complete groups);
   * a function whose decorators resolve to a property-labelled decorator is bound as an attribute;
-  * `@x.setter` / `@x.deleter def x` over an existing property `x`: either definition may represent the attribute;
+  * `@x.setter` / `@x.deleter def x` when a binding of `x` already exists in the scope (of any kind): the existing binding, or
+    the new definition as attribute or as function, are all accepted; an instance attribute assigned over a property of the
+    same name: either;
   * `while` and `match` are not among the blocks the property names: whatever is bound inside them may or may not be
     extracted (names are "tainted": absence, or any of the bindings of that name, is accepted);
   * `exports` are those of the surviving `__all__` binding (a conditional re-assignment that does not displace the existing
@@ -208,8 +210,8 @@ class Binder:
         return labels, overload
 
     def setter_over_property(self, scope: Scope, node) -> bool:
-        """`node` carries `@<its own name>.setter|deleter|getter` and every acceptable current binding of that name in this
-        very scope is a property (or an earlier setter of it)."""
+        """`node` carries `@<its own name>.setter|deleter|getter` and a binding of that name already exists in this very scope
+        (whatever its kind: the statement says nothing about what such a definition does to it)."""
         hit = False
         for d in node.decorator_list:
             name = dotted(d.func if isinstance(d, ast.Call) else d)
@@ -217,10 +219,7 @@ class Binder:
                 hit = True
         if not hit:
             return False
-        cands = scope.state.get(node.name)
-        if not cands:
-            return False
-        return all(c is not None and c.kind == "attribute" and (c.is_setter or (c.labels is not None and "property" in c.labels)) for c in cands)
+        return bool(scope.state.get(node.name)) or node.name in scope.tainted
 
     # ------------------------------------------------------------------ walk
     def block(self, scope: Scope, stmts: list, path: list, guarded) -> None:
@@ -236,11 +235,12 @@ class Binder:
 
     def stmt(self, scope: Scope, st: ast.stmt, nxt, path: list, guarded) -> None:
         if isinstance(st, (ast.FunctionDef, ast.AsyncFunctionDef)) and self.setter_over_property(scope, st):
-            # `@x.setter def x` over an existing property: Python re-binds x to the extended property, the statement is
-            # silent about which definition represents it: either
-            c = Cand(st.name, "attribute", st, "either", guarded, doc=literal_doc(st.body), labels=None,
-                     is_async=isinstance(st, ast.AsyncFunctionDef), nest=len(path), is_setter=True)
-            self.bind(scope, c)
+            # `@x.setter def x` over an existing member x: Python re-binds x (to the extended property if x was one), Griffe
+            # attaches the definition to an existing property-labelled member or lets it win as a function; the statement
+            # is silent: the existing binding, or this definition as attribute or as function, are all accepted
+            for kind in ("attribute", "function"):
+                self.bind(scope, Cand(st.name, kind, st, "either", guarded, doc=literal_doc(st.body), labels=None,
+                                      is_async=isinstance(st, ast.AsyncFunctionDef), nest=len(path), is_setter=True))
         elif isinstance(st, (ast.FunctionDef, ast.AsyncFunctionDef)):
             labels, overload = self.dec_info(scope, st)
             if overload is None:
@@ -425,8 +425,11 @@ class Binder:
                         names.append(parts[1])
                 if not ok:
                     continue
-                mode = "either" if init_conditional else classify(path)
                 for n in names:
+                    mode = "either" if init_conditional else classify(path)
+                    # an instance attribute over a property (or setter) of the same name: left open by the statement
+                    if any(c is not None and c.kind == "attribute" and isinstance(c.node, (ast.FunctionDef, ast.AsyncFunctionDef)) for c in scope.state.get(n, [])):
+                        mode = "either"
                     has_value = True if isinstance(st, ast.Assign) else st.value is not None
                     self.bind(scope, Cand(n, "attribute", st, mode, guarded, doc=self.attr_doc(nxt), via_init=init, has_value=has_value, nest=len(path)))
             elif isinstance(st, ast.If):
